@@ -140,7 +140,7 @@ def run_case(case):
             return obl
         return core.explore(path, max_paths=8)
 
-    def one(fields, limit, serial, canary=False, again=False):
+    def one(fields, limit, serial, canary=False, again=False, np_limit=False):
         def path(ctx):
             fs = SymFS()
             ref.write_symfs(fs, '/work/plt')
@@ -148,9 +148,11 @@ def run_case(case):
             what = 'Mandoline(fields=%r, limit_level=%r, serial=%r).slice(fformat="return")' % (fields, limit, serial)
             if again:
                 what = 'm = Mandoline(fields=%r, limit_level=%r, serial=%r); m.slice(fformat="return"); m.slice(fformat="return")' % (fields, limit, serial)
+            if np_limit:
+                what = what.replace('limit_level=%r' % limit, 'limit_level=np.int64(%r)' % limit)
             with patch.Patched(mods, fs), common.quiet():
                 try:
-                    m = Mandoline('plt', fields=list(fields), limit_level=limit, serial=serial, verbose=0)
+                    m = Mandoline('plt', fields=list(fields), limit_level=np.int64(limit) if np_limit else limit, serial=serial, verbose=0)
                     if again:
                         # one retained object flattens twice: the second result is judged
                         m.slice(fformat='return')
@@ -192,6 +194,14 @@ def run_case(case):
             res.add_obl(obl)
             if obl.failed and 'C08/history' not in viol:
                 viol['C08/history'] = {'signature': 'C08/history', 'what': obl.failed[0][0], 'args': [fields, limit, serial], 'again': True}
+    # the limit as a numpy integer (a loop over np.arange)
+    for fields, limit, serial in [(fl_[1 % len(fl_)], 0, True)]:
+        results, exhaustive, stats = one(fields, limit, serial, np_limit=True)
+        res.add_explore(results, exhaustive, stats)
+        for ctx, obl in results:
+            res.add_obl(obl)
+            if obl.failed and 'C08/numpy-limit' not in viol:
+                viol['C08/numpy-limit'] = {'signature': 'C08/numpy-limit', 'what': obl.failed[0][0], 'args': [fields, limit, serial], 'np_limit': True}
     cres, _, _ = one([ref.fields[0]], None, True, canary=True)
     res['canaries'] += 1
     if cres and cres[0][1].failed:
@@ -202,8 +212,7 @@ def run_case(case):
     for sig, v in viol.items():
         if not common.claim('C08', sig):
             continue
-        d = make_replay(ref, v)
-        status, out = common.run_replay(d)
+        d, status, out = common.replay_portfolio(lambda: make_replay(ref, v))
         v2 = {'signature': sig, 'what': v['what'], 'replay': d}
         if status == 'reproduced':
             res['violations'].append(v2)
@@ -234,7 +243,7 @@ def make_replay(ref, v):
         cov, lev = covering.covering(cref, lim, ref.fields.index(n))
         exp[n] = replay_lib._arr_hex(np.array(cov, dtype=float).T)
     _, lev = covering.covering(cref, lim, 0)
-    case = {'property': 'C08', 'handler': 'c08', 'signature': v['signature'], 'what': v['what'], 'args': v['args'], 'again': bool(v.get('again')), 'cli': v.get('cli'),
+    case = {'property': 'C08', 'handler': 'c08', 'signature': v['signature'], 'what': v['what'], 'args': v['args'], 'again': bool(v.get('again')), 'cli': v.get('cli'), 'np_limit': bool(v.get('np_limit')),
             'expected': exp, 'grid_level': lev.T.tolist() if (fields == ['all'] or 'grid_level' in fields) else None,
             'x': [float(x) for x in covering.centres(ref, lim, 0)], 'y': [float(x) for x in covering.centres(ref, lim, 1)]}
     with open(os.path.join(d, 'case.json'), 'w') as f:
